@@ -17,7 +17,10 @@ type Config struct {
 	LargePct int // percentage of leaves that take a large size class (default 4)
 
 	// Steering switches for listed known findings of gluon (see /verif/known_findings.json); false = full domain.
-	TightGroupCommas bool // never put white space after the comma between two members of a group
+	// A tree on which a switch changed something carries the label "steered:<feature>".
+	NoDelimiterPadding    bool // never write RFC 2046 transport padding (white space) behind a delimiter line
+	NoContentTypeComments bool // never write an RFC 2045 comment inside a Content-Type value
+	SimpleGroups          bool // inside groups: no white space after the comma between members, no member that starts with a quoted string or a comment
 }
 
 func (c Config) norm() Config {
@@ -144,6 +147,18 @@ var pctThreshold = func() [101]int {
 func (g *gen) pick(label string, xs ...string) string { return xs[g.intn(0, len(xs)-1, label)] }
 
 func (g *gen) label(s string) { g.labels[s] = true }
+
+// steer is called when a feature belonging to a listed known finding was drawn: it returns true when the feature may
+// be used; otherwise it records the label "steered:<feature>" (the caller falls back to the plain form), so that
+// checks can count the case as excluded.
+func (g *gen) steer(avoid bool, feature string) bool {
+	if avoid {
+		g.label("steered:" + feature)
+		return false
+	}
+
+	return true
+}
 
 var (
 	vocab = []string{"hello", "world", "report", "meeting", "invoice", "the", "quick", "brown", "fox", "2021", "Q3",
@@ -491,12 +506,19 @@ func (g *gen) addrList(min, max int, groups bool) ([]string, *AddrList) {
 			ws[len(ws)-1] += ":"
 			toks = append(toks, ws...)
 
+			g.label("addr-group-members")
+
 			for j := 0; j < m; j++ {
 				mt, a := g.mailbox()
 				a.Group = gname
 
+				if (strings.HasPrefix(mt[0], `"`) || strings.HasPrefix(mt[0], "(")) && !g.steer(g.cfg.SimpleGroups, "group-member-quoted-or-comment") {
+					a = Addr{User: "member", Domain: a.Domain, Group: gname}
+					mt = []string{"<member@" + a.Domain + ">"}
+				}
+
 				switch {
-				case j < m-1 && g.cfg.TightGroupCommas:
+				case j < m-1 && !g.steer(g.cfg.SimpleGroups, "group-comma-space"):
 					mt[len(mt)-1] += "," + glue
 				case j < m-1:
 					mt[len(mt)-1] += ","
@@ -883,6 +905,20 @@ func (g *gen) contentType(n *Node, typ, sub, boundary string) *Field {
 		n.Params = append(n.Params, ep)
 	}
 
+	if g.pct(4, "ctcomment") && g.steer(g.cfg.NoContentTypeComments, "ct-comment") {
+		// RFC 2045 5.1: "Content-type: text/plain; charset=us-ascii (Plain text)"
+		g.label("ct-comment")
+
+		c := g.pick("ctcommentv", "(Plain text)", "(a (nested) comment)", "(c)")
+		if g.pct(50, "ctcommentpos") {
+			toks = append(toks, c)
+		} else {
+			first := strings.TrimSuffix(toks[0], ";")
+			semi := toks[0][len(first):]
+			toks = append([]string{first, c + semi}, toks[1:]...)
+		}
+	}
+
 	return g.field(g.caseName("Content-Type"), toks, true)
 }
 
@@ -1225,6 +1261,17 @@ func (g *gen) entity(level int, isMsg bool, parent *Node, anc []string, inDigest
 		nc := g.intn(1, g.cfg.MaxParts, "nchildren")
 		for i := 0; i < nc; i++ {
 			n.Children = append(n.Children, g.entity(level+1, false, n, inner, n.Subtype == "digest"))
+		}
+
+		n.DelimPad = make([]string, nc+1)
+
+		if g.pct(5, "delimpad") && g.steer(g.cfg.NoDelimiterPadding, "delim-padding") {
+			// RFC 2046 5.1.1: receivers must cope with transport padding behind delimiter lines
+			g.label("delim-padding")
+
+			for i := range n.DelimPad {
+				n.DelimPad[i] = g.pick("delimpadv", " ", "", "\t", "  ")
+			}
 		}
 
 		if g.pct(55, "epilogue") {
